@@ -49,6 +49,10 @@ def gen_sysbounds(ch: Any, *, allow_none: bool = True) -> dict[str, Any]:
         xhi = float(ch.choice("sb_e2", [10, 30, 100, 0]))
     else:  # bigger than the inclusion range on at least one side
         xlo, xhi = lo - float(ch.choice("sb_over", [0, 1, 50])), hi + float(ch.choice("sb_over2", [0, 1, 50]))
+    # boundaries need not be whole watts (binary fractions, so that sums and differences stay exact in floats)
+    frac = ch.choice("sb_frac", [0.0, 0.0, 0.0, 0.5, 0.25, 0.375])
+    if frac:
+        lo, hi, xlo, xhi = (v + math.copysign(frac, v) if v else v for v in (lo, hi, xlo, xhi))
     return {"lo": lo, "hi": hi, "xlo": xlo, "xhi": xhi}
 
 
@@ -79,7 +83,7 @@ def gen_value(ch: Any, sb: dict[str, Any], live: list[dict[str, Any]]) -> float:
     if ch.chance("val_from_edges", 0.6):
         c = candidate_values(sb, live)
         return c[ch.draw("val_edge", len(c))]
-    return float(ch.choice("val", VALS))
+    return float(ch.choice("val", VALS)) + ch.choice("val_frac", [0.0, 0.0, 0.0, 0.5, -0.25])
 
 
 def gen_proposal(ch: Any, actor: dict[str, Any], sb: dict[str, Any], live: list[dict[str, Any]], now: float,
